@@ -86,6 +86,19 @@ def build_source(src, scratch, name='src.sgy'):
                 if off:
                     hdrs[t][37] = {'vary': 100 + 25 * t, 'const': 1500, 'repeat': 100 + 50 * (t % 3), 'desc': 5000 - 10 * t}[off]
             gen.make_segy_traces(path, list(data), hdrs, dt_us=dt, t0=t0, fmt=src['fmt'], ext=src.get('ext', 0))
+        elif how in ('single-inline-prestack', 'single-crossline-prestack'):
+            # a regular pre-stack line: one inline (crossline), every CDP with the same fold; segyio reads it as 1 x n x fold
+            fold = 2 if nT % 2 == 0 else 3 if nT % 3 == 0 else 1
+            hdrs = []
+            for t in range(nT):
+                h = {k: int(a[t]) for k, a in hm.items()}
+                c_ = int(src['il'][0]) if src['il'][0] != 0 else 7
+                if how == 'single-inline-prestack':
+                    h.update({189: c_, 193: 100 + t // fold, 37: 100 * (1 + t % fold)})
+                else:
+                    h.update({193: c_, 189: 100 + t // fold, 37: 100 * (1 + t % fold)})
+                hdrs.append(h)
+            gen.make_segy_traces(path, list(data), hdrs, dt_us=dt, t0=t0, fmt=src['fmt'], ext=src.get('ext', 0))
         elif how == 'single-inline-gathers':
             # one inline, the crossline word holds a CDP number shared by the traces of a gather (irregular fold), offsets vary within it
             hdrs, cdp, t = [], 0, 0
@@ -112,6 +125,10 @@ def build_source(src, scratch, name='src.sgy'):
         out.update(ntraces=nT, hdr_classes=cls)
     else:
         raise ValueError(geom)
+    if src.get('text_special'):
+        # punctuation on which segyio's EBCDIC table and Python's cp037 codec disagree ([ ] ! ^ |)
+        with segyio.open(path, 'r+', strict=False, ignore_geometry=True) as f:
+            f.text[0] = segyio.tools.create_text_header({1: 'Processed by ACME [v2]! a|b x^2', 2: 'second line'})
     tsc = src.get('trace_sample_count')
     if tsc:
         # the trace-header sample-count word is redundant with the binary header's (which is what readers use): it may be stale or vary
@@ -355,6 +372,27 @@ def must_be_exact(src, detection):
         return []
     # heuristic: only when the whole header set is inside the stated precondition
     return list(KEYS) if gen.heuristic_precondition(src['headers']) else None
+
+
+def missing_line_holes(rng, nI, nX, axis=0):
+    """pick_holes plus one whole interior inline (axis 0) or crossline (axis 1) that was never acquired (two neighbouring lines
+    remain somewhere, so the line increment is still the smallest spacing present).  None when the grid is too small."""
+    n = (nI, nX)[axis]
+    if n < 4:
+        return None
+    for _ in range(60):
+        k = rng.randrange(1, n - 1)
+        line = {k * nX + x for x in range(nX)} if axis == 0 else {i * nX + k for i in range(nI)}
+        holes = set(pick_holes(rng, nI, nX)) | line
+        present = np.ones((nI, nX), bool)
+        present.reshape(-1)[list(holes)] = False
+        rows, cols = present.any(axis=1), present.any(axis=0)
+        if (rows.sum(), cols.sum()) != ((nI - 1, nX) if axis == 0 else (nI, nX - 1)):
+            continue
+        if not rows[0] or not rows[-1] or not cols[0] or not cols[-1] or present.sum() % max(1, present[0].sum()) == 0:
+            continue
+        return sorted(holes)
+    return None
 
 
 def pick_holes(rng, nI, nX, max_holes=None, plain=True):
